@@ -27,6 +27,11 @@ def group_of(rules, docg, rid):
     return gs[0]
 
 
+def is_trailing_remover(rules, rid):
+    """rules whose documented purpose is to remove *trailing* comments (component / instantiation port and generic lists)"""
+    return any(m.startswith(REMOVER_BASES[0]) for m in rules.get(rid, {}).get("mro", []))
+
+
 def is_remover(rules, rid):
     return any(any(m.startswith(b) for b in REMOVER_BASES) for m in rules.get(rid, {}).get("mro", []))
 
